@@ -222,7 +222,15 @@ def write_word(prog, rep, tag):
     for cd in q.conds(b):
         if cd.kind == "cmp" and cd.op in ("Lt", "Ge"):
             l, r = pr.of_operand(cd.lhs), pr.of_operand(cd.rhs)
-            if has_root(r, "const", 20):
+            if any(x[0] == "const" and x[-1] == 20 for x in r):
+                counter = q.local_of(cd.lhs)
+                for _ in range(3):
+                    ds_ = b.defs().get(counter, []) if counter is not None else []
+                    if len(ds_) == 1 and ds_[0][2] == "assign" and ds_[0][3]["rv"]["k"] == "use" and q.local_of(ds_[0][3]["rv"]["a"][0]) is not None:
+                        counter = q.local_of(ds_[0][3]["rv"]["a"][0])
+                    else:
+                        break
+                d["_counter"] = counter
                 lt_t = cd.true_target() if cd.op == "Lt" else cd.false_target()
                 # re-issue (loop back to the sends) only on the lt edge
                 d["bound-20"] = True
@@ -241,7 +249,24 @@ def write_word(prog, rep, tag):
             if s["k"] == "assign" and s["rv"]["k"] == "bin" and s["rv"]["op"].startswith("Add") and q.const_int(s["rv"]["a"][1]) == 1:
                 incs.append(s)
     subs = [s for bi in b.live_blocks() for s in b.stmts(bi) if s["k"] == "assign" and s["rv"]["k"] == "bin" and s["rv"]["op"].startswith("Sub")]
-    d["counter-increases"] = len(incs) == 1 and not subs
+    counter = d.pop("_counter", None)
+    if counter is not None:
+        # every value stored back into the counter is counter + 1 (through the checked-add tuple); nothing subtracts
+        stores = [x for x in b.defs().get(counter, []) if x[2] == "assign"]
+        pc = Prov(b)
+        good = 0
+        for x in stores:
+            rv = x[3]["rv"]
+            r_ = pc._of_rvalue(rv)
+            if rv["k"] == "use" and q.const_int(rv["a"][0]) == 0:
+                continue  # initialisation
+            if has_root(r_, "binop", "Add") and has_root(r_, "const", 1) and not has_root(r_, "binop", "Sub"):
+                good += 1
+            else:
+                good = -99
+        d["counter-increases"] = good >= 1
+    else:
+        d["counter-increases"] = len(incs) == 1 and not subs
     # data register written before the control register
     d["data-then-control"] = len(sends) == 2
     if len(sends) == 2:
